@@ -24,6 +24,9 @@ import (
 	v3listenerpb "github.com/envoyproxy/go-control-plane/envoy/config/listener/v3"
 	v3routepb "github.com/envoyproxy/go-control-plane/envoy/config/route/v3"
 	v3aggregateclusterpb "github.com/envoyproxy/go-control-plane/envoy/extensions/clusters/aggregate/v3"
+	v3xdsxdstypepb "github.com/cncf/xds/go/xds/type/v3"
+	v3faultpb "github.com/envoyproxy/go-control-plane/envoy/extensions/filters/http/fault/v3"
+	v3rbacpb "github.com/envoyproxy/go-control-plane/envoy/extensions/filters/http/rbac/v3"
 	v3routerpb "github.com/envoyproxy/go-control-plane/envoy/extensions/filters/http/router/v3"
 	v3httppb "github.com/envoyproxy/go-control-plane/envoy/extensions/filters/network/http_connection_manager/v3"
 	v3ringhashpb "github.com/envoyproxy/go-control-plane/envoy/extensions/load_balancing_policies/ring_hash/v3"
@@ -132,8 +135,46 @@ func c45RouteCfgTemplate(rng *rand.Rand) *v3routepb.RouteConfiguration {
 	}
 }
 
+// c45IgnoredFilters returns 1-3 HTTP filters that the parser skips: optional
+// filters whose config type has no registered implementation (plain Any of an
+// unregistered message, TypedStruct naming an unknown type) or, with
+// sideOnly, optional filters that exist but are not supported on that side
+// (fault is client-only, rbac is server-only).
+func c45IgnoredFilters(rng *rand.Rand, n int, server bool) []*v3httppb.HttpFilter {
+	var out []*v3httppb.HttpFilter
+	for i := 0; i < n; i++ {
+		var cfg *anypb.Any
+		switch rng.Intn(5) {
+		case 0:
+			cfg = c45Any(&v3corepb.Address{})
+		case 1:
+			cfg = &anypb.Any{TypeUrl: "type.googleapis.com/no.such.Filter", Value: []byte{}}
+		case 2:
+			cfg = c45Any(&v3xdsxdstypepb.TypedStruct{TypeUrl: "type.googleapis.com/unknown.Filter"})
+		case 3:
+			if server {
+				cfg = c45Any(&v3faultpb.HTTPFault{}) // client-only filter in a server listener
+			} else {
+				cfg = c45Any(&v3rbacpb.RBAC{}) // server-only filter in a client listener
+			}
+		default:
+			cfg = &anypb.Any{TypeUrl: "custom.filter"}
+		}
+		out = append(out, &v3httppb.HttpFilter{Name: fmt.Sprintf("opt-%d", i), IsOptional: true, ConfigType: &v3httppb.HttpFilter_TypedConfig{TypedConfig: cfg}})
+	}
+	return out
+}
+
 func c45HCM(rng *rand.Rand, server bool) *v3httppb.HttpConnectionManager {
 	hcm := &v3httppb.HttpConnectionManager{HttpFilters: []*v3httppb.HttpFilter{c45RouterFilter("router")}}
+	switch rng.Intn(8) {
+	case 0: // every filter is optional and ignored: nothing survives
+		hcm.HttpFilters = c45IgnoredFilters(rng, 1+rng.Intn(3), server)
+	case 1: // ignored optional filters in front of the router
+		hcm.HttpFilters = append(c45IgnoredFilters(rng, 1+rng.Intn(3), server), c45RouterFilter("router"))
+	case 2: // ignored optional filters after the router
+		hcm.HttpFilters = append([]*v3httppb.HttpFilter{c45RouterFilter("router")}, c45IgnoredFilters(rng, 1+rng.Intn(2), server)...)
+	}
 	if rng.Intn(2) == 0 {
 		hcm.RouteSpecifier = &v3httppb.HttpConnectionManager_Rds{Rds: &v3httppb.Rds{ConfigSource: c45Ads(), RouteConfigName: "route-1"}}
 	} else {
@@ -765,12 +806,48 @@ func c45ErrSite(err error) string {
 	return s
 }
 
+// c45Fixed is the deterministic must-hit prefix: shapes that the random
+// generators reach only by luck.
+func c45Fixed(rng *rand.Rand, i int) (int, proto.Message) {
+	server := i%2 == 1
+	n := 1 + (i/2)%3
+	withRouter := (i/6)%3 // 0: none survives, 1: router last, 2: router first
+	hcm := c45HCM(rand.New(rand.NewSource(int64(i))), server)
+	fs := c45IgnoredFilters(rng, n, server)
+	switch withRouter {
+	case 1:
+		fs = append(fs, c45RouterFilter("router"))
+	case 2:
+		fs = append([]*v3httppb.HttpFilter{c45RouterFilter("router")}, fs...)
+	}
+	hcm.HttpFilters = fs
+	if !server {
+		return c45LDS, &v3listenerpb.Listener{Name: "lds.target.good:3333", ApiListener: &v3listenerpb.ApiListener{ApiListener: c45Any(hcm)}}
+	}
+	chain := &v3listenerpb.FilterChain{Name: "fc", Filters: []*v3listenerpb.Filter{{Name: "hcm", ConfigType: &v3listenerpb.Filter_TypedConfig{TypedConfig: c45Any(hcm)}}}}
+	l := &v3listenerpb.Listener{
+		Name:    "grpc/server?xds.resource.listening_address=0.0.0.0:9999",
+		Address: &v3corepb.Address{Address: &v3corepb.Address_SocketAddress{SocketAddress: &v3corepb.SocketAddress{Address: "0.0.0.0", PortSpecifier: &v3corepb.SocketAddress_PortValue{PortValue: 9999}}}},
+	}
+	if (i/18)%2 == 0 {
+		l.FilterChains = []*v3listenerpb.FilterChain{chain}
+	} else {
+		l.DefaultFilterChain = chain
+	}
+	return c45LDS, l
+}
+
 func c45Case(r *vlib.Run, fam string, i int, rng *rand.Rand) {
 	t := rng.Intn(4)
 	g := c45NewGen(rng)
 	var payload []byte
 	how := ""
 	switch fam {
+	case "fixed":
+		var m proto.Message
+		t, m = c45Fixed(rng, i)
+		payload, _ = proto.MarshalOptions{AllowPartial: true}.Marshal(m)
+		how = "fixed"
 	case "fill": // (i) pure protoreflect filler
 		m := c45New(t).ProtoReflect()
 		g.fill(m, 0)
@@ -821,7 +898,11 @@ func c45Case(r *vlib.Run, fam string, i int, rng *rand.Rand) {
 	}
 	url := c45TypeURL[t]
 	wrapped := false
-	switch rng.Intn(20) {
+	urlDraw := rng.Intn(20)
+	if fam == "fixed" {
+		urlDraw = 19
+	}
+	switch urlDraw {
 	case 0:
 		url = c45TypeURL[rng.Intn(4)] // possibly the wrong resource type
 	case 1:
@@ -983,7 +1064,7 @@ func TestVerifC45(t *testing.T) {
 	fams := []struct {
 		name     string
 		quick, n int
-	}{{"mutate", 45000, 450000}, {"fill", 20000, 200000}, {"bytes", 25000, 250000}, {"raw", 10000, 100000}}
+	}{{"fixed", 72, 72}, {"mutate", 45000, 450000}, {"fill", 20000, 200000}, {"bytes", 25000, 250000}, {"raw", 10000, 100000}}
 	for _, f := range fams {
 		n := r.N(f.quick, f.n)
 		for i := 0; i < n; i++ {
@@ -995,7 +1076,7 @@ func TestVerifC45(t *testing.T) {
 	}
 	r.Finish(vlib.Spec{
 		Level: "fault_enumeration",
-		Rule: "hostile inputs for Listener / RouteConfiguration / Cluster / ClusterLoadAssignment: (mutate) valid templates + 0-8 protoreflect-driven structural mutations (clear/set/duplicate/append/drop, descending into Any payloads); (fill) protoreflect random filler with field-aware biases (address/name pools that force duplicates, weights 0/2^31/2^32-1, priority gaps, bad regexes, unknown enums, Any of right/wrong/garbage types, huge repeated fields); (bytes) byte mutation and splicing of serialisations; (raw) random bytes. Each input is parsed twice by the real unmarshal*Resource with no panic recovery (progress line per case). distinct = (type, rejecting validation site) and (type, shape of the accepted update)",
+		Rule: "(fixed) 72 must-hit Listeners whose http_filters are 1-3 optional filters that the parser ignores (unregistered type, TypedStruct of an unknown type, filter not supported on that side) without / before / after a router, client API listener and server (default) filter chain; hostile inputs for Listener / RouteConfiguration / Cluster / ClusterLoadAssignment: (mutate) valid templates + 0-8 protoreflect-driven structural mutations (clear/set/duplicate/append/drop, descending into Any payloads); (fill) protoreflect random filler with field-aware biases (address/name pools that force duplicates, weights 0/2^31/2^32-1, priority gaps, bad regexes, unknown enums, Any of right/wrong/garbage types, huge repeated fields); (bytes) byte mutation and splicing of serialisations; (raw) random bytes. Each input is parsed twice by the real unmarshal*Resource with no panic recovery (progress line per case). distinct = (type, rejecting validation site) and (type, shape of the accepted update)",
 		Assumptions: []string{
 			"routes whose action gRPC does not support are kept by design (gRFC A36) and must be flagged RouteActionUnsupported; 'supported action' is read as 'known ActionType consistent with the route's cluster fields'",
 			"determinism is judged on error-ness, resource name and a structural comparison of the updates; HTTP filter configs and builders are compared by dynamic type only",
